@@ -395,11 +395,19 @@ def _result(st, cfg, exp, vios, replays):
     }
 
 
+def scratch_name(cfg):
+    """every other configuration lives in a plain directory, the others in
+    one named with the crop's own words and glob characters (a tree that globs
+    without escaping sees nothing in the latter)"""
+    names = sorted(c["name"] for c in configs("thorough"))
+    return ["c11.results[1].batches", "c11"][names.index(cfg["name"]) % 2]
+
+
 def prep_config(task):
     """phase A: seed the sharing tables, explore the top of the tree and
     return the frontier of sub-trees"""
     cfg, tables = task
-    d = os.path.join(core.scratch_root(), "c11.results[1].batches")
+    d = os.path.join(core.scratch_root(), scratch_name(cfg))
     st = Setup(cfg, d)
     if tables:
         st.sharing.load_all(tables)
@@ -452,7 +460,7 @@ def prep_config(task):
 def run_subtree(task):
     """phase B: exhaust one sub-tree"""
     cfg, tables, stack = task
-    d = os.path.join(core.scratch_root(), "c11.results[1].batches")
+    d = os.path.join(core.scratch_root(), scratch_name(cfg))
     st = Setup(cfg, d)
     st.sharing.load_all(tables)
     st.sharing.freeze()
@@ -661,7 +669,7 @@ def long_wait(task):
 
 def replay(case):
     cfg = [c for c in configs("thorough") if c["name"] == case["config"]][0]
-    d = os.path.join(core.scratch_root(), "c11.results[1].batches")
+    d = os.path.join(core.scratch_root(), scratch_name(cfg))
     st = Setup(cfg, d)
     st.sharing.load(case["sharing"])
     exp = sched.Explorer(st.make_exec, lambda ex: "")
